@@ -15,6 +15,7 @@ NEEDS = {
     "C03": "a particular sequence of calls (two generators alive at once, a setter between generator() and synthesis, the same Engine used from two threads, a clone of the engine)",
     "C04": "a voice file with a particular but valid layout (a tree with a single leaf, negative vs positive node ids, a stream with msd, more than one tree per state, windows listed in a different order, an option key the bundled voice does not use)",
     "C05": "a particular voiced/unvoiced pattern, a window of different width than the bundled ones, a stream with more or fewer windows, a particular duration assignment",
+    "C06": "direct use of the public Vocoder with stage 0 (mel-cepstral family): a cepstral order other than the bundled voice's (e.g. 2..40), alpha = 0 or a small alpha, a particular frequency region, a spectrum with large dynamic range, the first frame vs later frames",
     "C07": "a two-stream voice / nlpf = 0, F0 at the 20 Hz / 20 kHz limits, a voiced-to-unvoiced transition, a very long or short frame period, a low-pass filter of a different order",
     "C08": "a non-default speed (very slow or very fast), a duration model with particular means/variances (tiny variance, mean below 1), an utterance with one label",
     "C09": "alignment enabled with particular time stamps (end before start, equal times, a label without times between timed ones, times not a multiple of the frame period, very large times)",
